@@ -300,11 +300,32 @@ func TestC09StalledWriteEnd(t *testing.T) {
 		}
 		go send("syncNoW", false)
 		time.Sleep(20 * time.Millisecond) // the first sender is inside the transport write now
+		syncQueued := 0
+		anyAsync := 0
 		for _, k := range kinds {
 			go send(k, true)
+			if k != "async" {
+				syncQueued++
+			} else {
+				anyAsync = 1 // the generation's async sender goroutine queues on the write lock too
+			}
 		}
 		time.Sleep(20 * time.Millisecond)
-		logf("1 sender mid-write, %d behind it", extra)
+		// REAL time: on a busy machine those goroutines may not have run yet. The senders are "queued
+		// behind the stalled write" only once they sit in writeFrame waiting for the write lock, which
+		// the goroutine dump shows; if that is not reached within 2 s the error-identity assertion below
+		// is not made (a send that starts after Close is refused at the entry gate, legitimately).
+		admitted := false
+		for dl := time.Now().Add(2 * time.Second); time.Now().Before(dl); time.Sleep(5 * time.Millisecond) {
+			if blockedInWriteFrame() >= syncQueued+anyAsync {
+				admitted = true
+				break
+			}
+		}
+		if !admitted {
+			ev.Count("inconclusive_senders_not_yet_queued", 1)
+		}
+		logf("1 sender mid-write, %d behind it (all queued on the write lock: %v)", extra, admitted)
 		endAt := time.Now()
 		closeRes := make(chan error, 1)
 		switch end {
@@ -317,6 +338,7 @@ func TestC09StalledWriteEnd(t *testing.T) {
 			_ = p.C.Close()
 		}
 		pendingN := 1 + extra
+		transportErrs := 0
 		deadline := time.After(3 * time.Second)
 		for i := 0; i < pendingN; i++ {
 			select {
@@ -325,21 +347,29 @@ func TestC09StalledWriteEnd(t *testing.T) {
 				if r.err == nil {
 					fail("a %s send returned success although the peer never read a byte of it", r.kind)
 				}
-				// a send that was queued for the write lock when the generation ended was accepted while
-				// the session was Selected: it ends with the connection-closed error (C09), not with the
-				// "not selected" refusal of a send that was never admitted - and it is no counted drop
-				// (only for Close: there the stalled writer keeps the write lock until teardown has cancelled
-				// the generation and closed the socket. When the PEER ends the link the stalled write fails
-				// first and a queued one may legitimately meet the dead socket - a write error - or the
-				// documented write-boundary re-check before teardown has begun.)
-				if end == "close" && r.queued && r.kind != "async" && !errors.Is(r.err, hsms.ErrConnClosed) && !errors.Is(r.err, context.DeadlineExceeded) {
-					fail("a %s send queued behind the stalled write when Close ended the generation returned %v, want the connection-closed error", r.kind, r.err)
+				// Which of the synchronous senders holds the write lock (stalled in the transport) and which
+				// wait for it is decided by the scheduler, not by the order in which they were started. So:
+				// when Close ends the generation, AT MOST ONE of them - the one inside the transport write -
+				// may report a transport error; every other one was admitted while Selected and is still
+				// waiting for the lock when teardown cancels the generation: it ends with the connection-
+				// closed error (C09), never with the "not selected" refusal of a send that was not admitted.
+				if end == "close" && admitted && r.kind != "async" {
+					switch {
+					case errors.Is(r.err, hsms.ErrConnClosed), errors.Is(r.err, context.DeadlineExceeded):
+					case errors.Is(r.err, hsms.ErrNotSelectedState):
+						fail("a %s send that was waiting for the write lock when Close ended the generation returned %v, want the connection-closed error", r.kind, r.err)
+					default:
+						transportErrs++
+						if transportErrs > 1 {
+							fail("two synchronous sends report a transport error (%v) when Close ended the generation: only one of them can have been inside the transport write, the others were waiting for the write lock and must end with the connection-closed error", r.err)
+						}
+					}
 				}
 			case <-deadline:
 				fail("%d of %d sends of the ended generation (mid-write or queued for the write lock) have not returned 3 s after %s (write timeout is 20 s)", pendingN-i, pendingN, end)
 			}
 		}
-		if d := w.conn.Metrics().DataMsgDropNotSelectedCount() - dropsBefore; d != 0 && end == "close" {
+		if d := w.conn.Metrics().DataMsgDropNotSelectedCount() - dropsBefore; d != 0 && end == "close" && admitted {
 			fail("%d sends that were admitted while Selected were counted as not-selected drops when the generation ended", d)
 		}
 		if end == "close" {
@@ -636,4 +666,19 @@ func TestC09BusyHandlerEnd(t *testing.T) {
 			}, "c09h:end:"+end)
 		})
 	})
+}
+
+// blockedInWriteFrame counts the goroutines that are inside the library's writeFrame waiting for the
+// per-generation write lock (from the goroutine dump: the only way to KNOW that a sender has passed
+// the entry gate and is queued behind another write).
+func blockedInWriteFrame() int {
+	buf := make([]byte, 1<<20)
+	n := runtime.Stack(buf, true)
+	c := 0
+	for _, g := range strings.Split(string(buf[:n]), "\n\n") {
+		if strings.Contains(g, "hsms.(*connection).writeFrame") && strings.Contains(g, "sync.(*Mutex).Lock") {
+			c++
+		}
+	}
+	return c
 }
